@@ -31,6 +31,9 @@ pub enum Creator {
   /// ... with a synchronous first item in front (start_with): a take(1) subscriber leaves while it is connecting
   StartWithIntervalRefCount,
   StartWithIntervalReplay,
+  /// a callback running on the operator's worker emits into the hot source that feeds the operator
+  HotDebounceFeedback,
+  HotObserveOnFeedback,
 }
 
 #[derive(Clone, Copy, Debug, PartialEq)]
@@ -55,6 +58,7 @@ fn applicable(c: Creator, e: Ending) -> bool {
     (Interval | Timer | IntervalFlatMapObserveOn | IntervalSampleInterval | IntervalPublish | IntervalDelay | IntervalRefCount | IntervalReplay | StartWithIntervalRefCount | StartWithIntervalReplay, SourceError | Retry2) => false,
     (Interval | IntervalFlatMapObserveOn | IntervalSampleInterval | IntervalPublish | IntervalDelay | IntervalRefCount | IntervalReplay | StartWithIntervalRefCount | StartWithIntervalReplay, SourceComplete) => false,
     (IntervalPublish, Take1 | First | TakeUntilTimer | AmbNever) => false,
+    (HotDebounceFeedback | HotObserveOnFeedback, Retry2 | TakeUntilTimer | AmbNever | First) => false,
     _ => true,
   }
 }
@@ -106,6 +110,20 @@ fn create(c: Creator, causes: &Causes) -> Built {
       let p = observables::interval(ms(10), nt()).map(|x| x as i64).publish();
       let p2 = p.clone();
       Built { o: p.observable(), hot: None, connect: Some(Box::new(move || p2.connect())) }
+    }
+    Creator::HotDebounceFeedback | Creator::HotObserveOnFeedback => {
+      let h2 = hot.clone();
+      let base = if c == Creator::HotDebounceFeedback { hot.observable().debounce(ms(10), nt()) } else { hot.observable().observe_on(nt()) };
+      let o = base.tap(
+        move |x: i64| {
+          if x < 100 {
+            h2.next(x + 100)
+          }
+        },
+        |_| {},
+        || {},
+      );
+      Built { o, hot: Some(hot), connect: None }
     }
     Creator::IntervalRefCount => Built { o: observables::interval(ms(10), nt()).map(|x| x as i64).ref_count().observable(), hot: None, connect: None },
     Creator::IntervalReplay => Built { o: observables::interval(ms(10), nt()).map(|x| x as i64).replay().observable(), hot: None, connect: None },
@@ -214,7 +232,7 @@ pub fn exit_scn(c: Creator, e: Ending, twice: bool, q: Option<u32>, t: Option<u3
 pub fn c15_scenarios() -> Vec<Scn> {
   use Creator::*;
   use Ending::*;
-  let creators = [Interval, Timer, HotObserveOn, ColdSubscribeOn, ColdObserveOn, HotDebounce, HotTimeout, IntervalFlatMapObserveOn, ColdObserveOnTwice, IntervalSampleInterval, IntervalPublish, IntervalDelay, IntervalRefCount, IntervalReplay, StartWithIntervalRefCount, StartWithIntervalReplay];
+  let creators = [Interval, Timer, HotObserveOn, ColdSubscribeOn, ColdObserveOn, HotDebounce, HotTimeout, IntervalFlatMapObserveOn, ColdObserveOnTwice, IntervalSampleInterval, IntervalPublish, IntervalDelay, IntervalRefCount, IntervalReplay, StartWithIntervalRefCount, StartWithIntervalReplay, HotDebounceFeedback, HotObserveOnFeedback];
   let endings = [SourceComplete, SourceError, Unsubscribe, Take1, First, TakeUntilTimer, AmbNever, Retry2];
   let mut v = vec![];
   for c in creators {
